@@ -30,6 +30,7 @@ class KFold:
         self.loop = None
         self.via = "loop"
         self.band = None
+        self.truthy_seed = False
         self.__dict__.update(kw)
 
     def text(self):
@@ -345,6 +346,7 @@ class Kernel:
             if getattr(fo, "none_seeded", False):
                 k.init = ("first",)
                 k.first_filter = k.filter
+                k.truthy_seed = getattr(fo, "truthy_seed", False)
             elif fe is not None and fe == k.term:
                 k.init = ("first",)
                 k.first_filter = self.first_filter(init, loop)
